@@ -1,4 +1,6 @@
+mod b3;
 mod checks;
+mod cli;
 mod cnode;
 mod exec;
 mod gen;
@@ -60,7 +62,7 @@ fn real_main(args: &[String]) -> i32 {
                 eprintln!("unknown property {prop}");
                 return 2;
             };
-            let cfg = runner::RunCfg { tier, seed, jobs, scale, only_family: arg_val(args, "--family") };
+            let cfg = runner::RunCfg { part: arg_val(args, "--part"), tier, seed, jobs, scale, only_family: arg_val(args, "--family") };
             runner::run_check(&spec, &cfg)
         }
         "shard" => {
@@ -78,6 +80,14 @@ fn real_main(args: &[String]) -> i32 {
                 &arg_val(args, "--stopfile").unwrap_or_default(),
             )
         }
+        "merge-parts" => {
+            let prop = arg_val(args, "--prop").unwrap_or_default();
+            let parts: Vec<String> = arg_val(args, "--parts").unwrap_or_default().split(',').map(|s| s.to_string()).collect();
+            let tier = arg_val(args, "--tier").or_else(|| std::env::var("VERIF_TIER").ok()).unwrap_or_else(|| "quick".into());
+            let seed = arg_val(args, "--seed").or_else(|| std::env::var("VERIF_SEED").ok()).and_then(|s| s.parse().ok()).unwrap_or(1u64);
+            runner::merge_parts(&prop, &parts, seed, &tier)
+        }
+        "digest-plan" => runner::digest_plan(args.get(2).map(|s| s.as_str()).unwrap_or("")),
         "replay" => {
             let Some(p) = args.get(2) else {
                 eprintln!("usage: b3sim replay <file>");
@@ -92,7 +102,7 @@ fn real_main(args: &[String]) -> i32 {
             let seed: u64 = arg_val(args, "--seed").and_then(|s| s.parse().ok()).unwrap_or(1);
             let Some(spec) = checks::spec(&prop) else { return 2 };
             let avail = exec::available_levels();
-            let g = gen::GenCtx { tier_thorough: false, avail: &avail };
+            let g = gen::GenCtx { tier_thorough: false, avail: &runner::GEN_LEVELS };
             for f in &spec.families {
                 if f.name == fam || fam.is_empty() {
                     println!("{}", serde_json::to_string_pretty(&(f.gen)(seed, i, &g)).unwrap());
